@@ -602,7 +602,7 @@ class ReverseIdSet(DocIdSet):
     def last(self):
         idset = self.idset
         maxid = self.limit - 1
-        if idset.last() < maxid - 1:
+        if maxid not in idset:
             return maxid
 
         for i in xrange(maxid, -1, -1):
